@@ -83,6 +83,21 @@ func c19ColdWork(text string) string {
 	return out + fmt.Sprintf("json(%v): %s\nyaml(%v): %s", jerr, jb, yerr, yb)
 }
 
+// c19EnvTemplate is a read-only list of pairs that every goroutine turns into its own env block (the way a program
+// keeps the defaults of all its pipelines in one table). c19EnvTemplatePristine is what it must still hold afterwards.
+var c19EnvTemplate = []ordered.Tuple[string, string]{{Key: "GREETING", Value: "hello $USER_NAME"}, {Key: "$KEYREF", Value: "named by expansion"},
+	{Key: "PLAIN", Value: "p"}, {Key: "AGAIN", Value: "${GREETING}!"}, {Key: "LAST", Value: "$$escaped"}}
+var c19EnvTemplatePristine = append([]ordered.Tuple[string, string](nil), c19EnvTemplate...)
+
+// c19TemplateWork builds a pipeline whose env block comes from the shared template and interpolates it with the
+// caller's own variables.
+func c19TemplateWork(g int) string {
+	p := &pipeline.Pipeline{Env: ordered.MapFromItems(c19EnvTemplate...), Steps: pipeline.Steps{&pipeline.CommandStep{Command: "echo $GREETING $AGAIN"}}}
+	err := p.Interpolate(refmodel.NewEnv(false, map[string]string{"USER_NAME": fmt.Sprint("user", g), "KEYREF": fmt.Sprint("K", g)}), false)
+	jb, jerr := safeJSONMarshal(p)
+	return fmt.Sprintf("err=%v json(%v)=%s", err, jerr, jb)
+}
+
 func init() {
 	registerChild("c19cold", func(in []byte) any {
 		var q c19ColdReq
@@ -634,6 +649,7 @@ func checkC19(c *run.Ctx) {
 		for b := 0; b < batches; b++ {
 			var wg sync.WaitGroup
 			results := make([]c19Result, c19Goroutines)
+			tmpl := make([]string, c19Goroutines)
 			start := make(chan struct{})
 			for g := 0; g < c19Goroutines; g++ {
 				wg.Add(1)
@@ -642,6 +658,7 @@ func checkC19(c *run.Ctx) {
 					<-start
 					k := all[keys.Kinds[(b+g)%3]][0]
 					results[g] = c19Work(uint64(c.Seed)*1000003+uint64(b*c19Goroutines+g), k)
+					tmpl[g] = c19TemplateWork(b*c19Goroutines + g)
 				}(g)
 			}
 			close(start)
@@ -664,6 +681,18 @@ func checkC19(c *run.Ctx) {
 					return
 				}
 				c.Feature("disjoint", seq.Err == "", len(seq.Sigs), seq.YAML != "")
+				if want := c19TemplateWork(b*c19Goroutines + g); tmpl[g] != want {
+					c.Violation(fmt.Sprintf("disjoint/%d-%d", b, g), map[string]any{"what": "pipelines built by different goroutines from one read-only list of env pairs (MapFromItems) and interpolated with their own variables: a different result than sequentially",
+						"concurrent": tmpl[g], "sequential": want})
+					return
+				}
+				for k := range c19EnvTemplate {
+					if c19EnvTemplate[k] != c19EnvTemplatePristine[k] {
+						c.Violation(fmt.Sprintf("disjoint/%d-%d", b, g), map[string]any{"what": fmt.Sprintf("the read-only list of pairs given to MapFromItems was changed by work on the maps built from it (entry %d is now %q=%q)", k, c19EnvTemplate[k].Key, c19EnvTemplate[k].Value)})
+						return
+					}
+				}
+				c.Count("pipelines_built_from_a_shared_pair_list", 1)
 			}
 		}
 	})
